@@ -300,6 +300,7 @@ void exec_case(const Case &c) {
     label_n("fifo_pairs", pairs);
     if (total_parks) label("some_park");
     if (max_parked >= 2) label("two_parked_at_once");
+    if (max_parked >= 8) label("eight_or_more_parked_at_once");
     if (switch_in_cs) label("switch_inside_cs");
     if (max_readers_in >= 2) label("readers_share");
     if (barrier_done) label("rendezvous_completed");
